@@ -17,6 +17,8 @@ the code by the correspondence run.
   * Community.create_introduction_response: the initial introduction_lan/wan, the `if introduction:` block that picks
     the LAN/WAN address handed out, the payload's address arguments (both styles), the puncture-request arguments
     and its destination                                                                             -> Gen.introAddrs / Gen.respFields / Gen.punctReqSends
+  * Community.create_introduction_request: identifier = claimed global time [% N], address fields       -> Gen.requestIdentifier / Gen.reqFields
+  * payload classes: which reduce the identifier modulo 65536 in __init__, which pack it raw as 'H'    -> Gen.identTruncated
   * Community.on_introduction_request: LAN-address learning condition/value, the arguments handed to
     create_introduction_response and the destination of the response                                -> Gen.learnsLan / Gen.learnedLan / Gen.respArgs
 
@@ -307,6 +309,8 @@ def puncture_sends(com_cls) -> str:
         raise TranslatorError(f"on_puncture_request: expected `packet = self.create_puncture(lan, wan, ...)`: `{_src(mk)}`")
     pkt = mk.targets[0].id if isinstance(mk.targets[0], ast.Name) else None
     a0, a1 = tr.expr(mk.value.args[0]), tr.expr(mk.value.args[1])
+    if _src(mk.value.args[2]) != "payload.identifier":
+        raise TranslatorError("on_puncture_request: create_puncture must be handed payload.identifier as 3rd argument")
     if len(mk.value.args) < 4 or _src(mk.value.args[3]) != "new_style":
         raise TranslatorError("on_puncture_request: create_puncture must be handed `new_style` as 4th argument")
     if not (isinstance(snd, ast.Expr) and _src(snd.value).startswith("self.endpoint.send(") and len(snd.value.args) == 2
@@ -435,6 +439,8 @@ def create_response_parts(com_cls) -> str:
     kw = {k.arg: _src(k.value) for k in mk.value.keywords}
     if kw.get("new_style") != "new_style":
         raise TranslatorError("create_introduction_response: puncture request must inherit new_style")
+    if _src(mk.value.args[2]) != "identifier":
+        raise TranslatorError("create_introduction_response: puncture request must carry the request's identifier")
     trq = Tr("create_introduction_response", set(), {"socket_address", "lan_socket_address"})
     lanw, wanw = trq.expr(mk.value.args[0]), trq.expr(mk.value.args[1])
     if not (isinstance(snd, ast.Expr) and isinstance(snd.value, ast.Call) and _src(snd.value.func) == "self.endpoint.send"
@@ -490,6 +496,76 @@ def intro_request_parts(com_cls) -> str:
             f"  ({a_lan}, {a_sock}, {dst})\n")
 
 
+def create_request_parts(com_cls) -> str:
+    """create_introduction_request: how the identifier is derived from the claimed global time, and the address fields"""
+    fn = _fn(com_cls, "create_introduction_request")
+    body = _body(fn)
+    st0 = body[0]
+    if not (isinstance(st0, ast.Assign) and _src(st0.targets[0]) == "global_time"):
+        raise TranslatorError(f"create_introduction_request: expected `global_time = ...` first: `{_src(st0)}`")
+    v = st0.value
+    if _src(v) == "self.claim_global_time()":
+        ident = "t"
+    elif (isinstance(v, ast.BinOp) and isinstance(v.op, ast.Mod) and _src(v.left) == "self.claim_global_time()"
+          and isinstance(v.right, ast.Constant) and isinstance(v.right.value, int) and v.right.value > 0):
+        ident = f"t % {v.right.value}"
+    else:
+        raise TranslatorError(f"create_introduction_request: identifier derivation outside the subset: `{_src(v)}`")
+    pl = next((s for s in body if isinstance(s, ast.If) and "IntroductionRequestPayload" in _src(s)), None)
+    if pl is None or len(pl.body) != 1 or len(pl.orelse) != 1:
+        raise TranslatorError("create_introduction_request: payload construction `if ...: New... else: ...` not found")
+    if _src(pl.test) != "new_style or isinstance(socket_address, UDPv6Address)":
+        raise TranslatorError(f"create_introduction_request: unexpected style test `{_src(pl.test)}`")
+    tr = Tr("create_introduction_request", set(), {"socket_address"})
+
+    def fields(st, cname, ident_pos):
+        if not (isinstance(st, ast.Assign) and isinstance(st.value, ast.Call) and _src(st.value.func) == cname
+                and len(st.value.args) > ident_pos):
+            raise TranslatorError(f"create_introduction_request: expected `payload = {cname}(...)`")
+        if _src(st.value.args[ident_pos]) != "global_time":
+            raise TranslatorError(f"create_introduction_request: {cname} identifier is `{_src(st.value.args[ident_pos])}`, "
+                                  "expected `global_time`")
+        res = []
+        for a in st.value.args[:3]:
+            res.append("self.my_estimated_wan" if _src(a) == "self.my_preferred_address()" else tr.expr(a))
+        return res
+    f_new = fields(pl.body[0], "NewIntroductionRequestPayload", 3)
+    f_old = fields(pl.orelse[0], "IntroductionRequestPayload", 5)
+    if f_new != f_old:
+        raise TranslatorError(f"create_introduction_request: old- and new-style payloads carry different addresses: {f_old} / {f_new}")
+    return ("/-- create_introduction_request: the identifier put into the request, from the claimed global time `t` -/\n"
+            f"def requestIdentifier (t : Nat) : Nat :=\n  {ident}\n\n"
+            "/-- the three address fields of the request (identical for both styles): destination, source lan, source wan -/\n"
+            "def reqFields (self : SelfView) (socket_address : Addr) : IntroReqView :=\n"
+            f"  ⟨{f_old[0]}, {f_old[1]}, {f_old[2]}⟩\n")
+
+
+def ident_truncation(pay_tree) -> str:
+    """which payload classes reduce the identifier modulo 65536 themselves (old-style __init__), which pack it raw as 'H'"""
+    lines = ["/-- does the payload class reduce its identifier modulo 65536 itself?  (otherwise it is packed raw as an",
+             "    unsigned 16 bit field and a larger value is a PackError) -/", "def identTruncated : PayloadKind → Bool"]
+    for py, lean in PAYLOADS.items():
+        cls = _cls(pay_tree, py, PAY)
+        init = next((n for n in cls.body if isinstance(n, ast.FunctionDef) and n.name == "__init__"), None)
+        trunc = False
+        if init is not None:
+            for st in ast.walk(init):
+                if isinstance(st, ast.Assign) and _src(st.targets[0]) == "self.identifier":
+                    if _src(st.value) == "identifier % 65536":
+                        trunc = True
+                    elif _src(st.value) != "identifier":
+                        raise TranslatorError(f"{py}.__init__: identifier handling outside the subset: `{_src(st)}`")
+        fl = next((n for n in cls.body if isinstance(n, ast.Assign) and _src(n.targets[0]) == "format_list"), None)
+        if fl is None:
+            raise TranslatorError(f"{py}: no format_list")
+        fmt = ast.literal_eval(fl.value)
+        if init is None:   # VariablePayload: the identifier's position in `names` must be an 'H' field
+            if "H" not in fmt:
+                raise TranslatorError(f"{py}: identifier is not a 16 bit field: {fmt}")
+        lines.append(f"  | .{lean} => {'true' if trunc else 'false'}")
+    return "\n".join(lines) + "\n"
+
+
 def translate() -> str:
     com = _parse(COM)
     ept = _parse(EPF)
@@ -517,6 +593,7 @@ def translate() -> str:
     for lean, (signed, pk) in spec.items():
         out.append(f"  | .{lean} => ({'true' if signed else 'false'}, .{pk})")
     out += ["", puncture_sends(cc), intro_response_parts(cc), create_response_parts(cc), intro_request_parts(cc),
+            create_request_parts(cc), ident_truncation(pay),
             "end Gen", "end Ipv8.C13", ""]
     return "\n".join(out)
 
